@@ -324,6 +324,10 @@ def run_rlimit(acc, shard):
             cands = []
             if cur_hard == INF:
                 cands += [(INF, INF), (top // 2, INF), (floor + 12345, INF)]
+                if res != resource.RLIMIT_CPU:
+                    # the largest finite limits (container runtimes write 2**63-1): finite is finite, next to "unlimited" as
+                    # it is (hard limits only ever go down here: raising one needs a capability the sandbox does not grant)
+                    cands += [(2**63 - 1, 2**63 - 1), (2**63 - 2, 2**63 - 1), (floor + 7, 2**63 - 1), (2**63 - 2, 2**63 - 2)]
             hs = sorted({top, max(floor, top // 2), max(floor, top // 4), floor + 4096}, reverse=True)
             for h in hs:
                 if h > top:
